@@ -35,7 +35,8 @@ func (a Addr) Network() string {
 }
 
 func (a Addr) String() string {
-	return fmt.Sprintf("%s:%d", a.IP.String(), a.Port)
+	// JoinHostPort brackets IPv6 addresses, as UnmarshalText (net.SplitHostPort) requires
+	return net.JoinHostPort(a.IP.String(), fmt.Sprint(a.Port))
 }
 
 func (a *Addr) UnmarshalText(x []byte) error {
